@@ -2595,7 +2595,8 @@ Proof.
       destruct Shape as [[F [C' [FF CR]]]|F].
       + exists b', sl', lv. cbn [fst snd]. repeat split; auto; congruence.
       + exfalso. destruct (is_full_spec _ _ F) as [_ Occ]. apply nth_error_In in Sl2. apply (Occ _ Sl2). reflexivity.
-    - exists b2, sl2, lv2. cbn [fst snd]. split; [unfold bs'; rewrite nth_error_upd_neq by congruence; exact N2|auto]. }
+    - exists b2, sl2, lv2. cbn [fst snd]. split; [unfold bs'; rewrite nth_error_upd_neq by congruence; exact N2|].
+      exact (conj C2 (conj F1 (conj F2 (conj F3 (conj F4 F5))))). }
   unfold dehb_mgr_on_result. cbn [m_rs m_mode m_brackets m_offsets m_primary].
   replace (Nat.leb p bid && Nat.ltb bid (length bs)) with true
     by (symmetry; apply andb_true_iff; split; [apply Nat.leb_le|apply Nat.ltb_lt]; lia).
@@ -2777,19 +2778,17 @@ Proof.
   intros pos t Ht. unfold top_of_previous_rung. rewrite Nb, TL, Ht. reflexivity.
 Qed.
 
-(* The parent-slot lookup of the code is NOT total: with fewer brackets per iteration than rung
-   levels the stored bracket delta is <= 0.  Witness: 3 rung levels, 1 bracket per iteration; after
-   13 jobs the next job (bracket 1, rung 2) has no parent bracket: IndexError. *)
+(* regression example for former finding F-C05-2 (3 rung levels, 1 bracket per iteration): the job
+   (bracket 1, rung 2) now finds its parent, the trial in rung 2 of bracket 0 *)
 Definition dehb_witness_first : rung_system := [(4%nat, 1%Z); (2%nat, 2%Z); (1%nat, 3%Z)].
 Definition dehb_witness_ops : list dop :=
   flat_map (fun t => [DNext; DRet 0 (Z.of_nat t) (Val (inject_Z (Z.of_nat t)))]) (seq 0 13) ++ [DNext].
 
-Theorem dehb_parent_slot_refuted :
-  exists first md nb ops st bid s,
-    drun_from first md nb ops = Ok st /\ In (bid, s) (d_out st) /\
-    trial_id_from_parent_slot (d_mgr st) bid (level s) (slot_index s) = Error EInternal.
+Theorem dehb_parent_slot_example :
+  exists st bid s,
+    drun_from dehb_witness_first Min (Some 1%nat) dehb_witness_ops = Ok st /\ In (bid, s) (d_out st) /\
+    trial_id_from_parent_slot (d_mgr st) bid (level s) (slot_index s) = Ok (Some 6%Z).
 Proof.
-  exists dehb_witness_first, Min, (Some 1%nat), dehb_witness_ops.
   destruct (drun_from dehb_witness_first Min (Some 1%nat) dehb_witness_ops) as [st|e] eqn:E; vm_compute in E; [|discriminate].
   inversion E; subst st. eexists _, _, _. split; [reflexivity|]. split; [left; reflexivity|]. vm_compute. reflexivity.
 Qed.
